@@ -743,6 +743,279 @@ def typestate_rule(ctx):
     return dict(table_entries=len(table), returns=nret, is_prime_guards=len(guards), failures=len(fails))
 
 
+# psi_k: the smallest composite that passes Miller-Rabin for ALL of the first k primes as bases
+# (Pomerance-Selfridge-Wagstaff 1980, Jaeschke 1993, Jiang-Deng 2014); psi_12 and beyond exceed 2^64
+PSI = [9, 2047, 1373653, 25326001, 3215031751, 2152302898747, 3474749660383, 341550071728321, 341550071728321,
+       3825123056546413051, 3825123056546413051, 3825123056546413051]
+FIRST_PRIMES = [2, 3, 5, 7, 11, 13, 17, 19, 23, 29, 31, 37]
+
+
+def _mr_passes(a, n):
+    """Does odd n > 2 pass the strong probable-prime test to base a (Python integers)?"""
+    if a % n == 0:
+        return True
+    d, r = n - 1, 0
+    while d % 2 == 0:
+        d //= 2
+        r += 1
+    x = pow(a, d, n)
+    if x in (1, n - 1):
+        return True
+    for _ in range(r - 1):
+        x = x * x % n
+        if x == n - 1:
+            return True
+    return False
+
+
+def verdict_rule(ctx):
+    """Every path through baillie_psw to a PROBABLY_PRIME verdict carries evidence that suffices for
+    EVERY n the path admits.
+
+    Analysed on the function's own IR (calls not inlined).  A path is the list of branch outcomes
+    from the entry to the `ret`; its facts are bounds on n (comparisons with constants), the parity
+    test, and Miller-Rabin calls with a constant base whose result was compared with COMPOSITE.
+    Accepted evidence:
+      * the verdict is the result of strong_lucas(n) and the path passed Miller-Rabin to base 2 with n
+        odd (the Baillie-PSW combination, verified to have no counterexample below 2^64);
+      * a constant PROBABLY_PRIME on a path that bounds n below 2^16: every n the facts admit is
+        enumerated and must be prime;
+      * a constant PROBABLY_PRIME (or a Miller-Rabin result handed back) after Miller-Rabin to the
+        first k primes with n odd and n < B <= psi_k (the literature's table above).
+    A path that returns PROBABLY_PRIME for a composite the facts admit (psi_k itself, a strong Lucas
+    pseudoprime, a small composite) is reported with that composite; a path whose facts the rule
+    cannot read is analysis-broken (exit 2), not a finding."""
+    import os
+    from vlib import cxx
+    wd = ctx.sub("VERDICT")
+    src = os.path.join(wd, "bp.cc")
+    with open(src, "w") as f:
+        f.write('#include <cstdint>\n#include "au/utility/probable_primes.hh"\n'
+                'extern "C" int bp(std::uint64_t n) { return (int)au::detail::baillie_psw(n); }\n'
+                'extern "C" int pp_value() { return (int)au::detail::PrimeResult::PROBABLY_PRIME; }\n'
+                'extern "C" int comp_value() { return (int)au::detail::PrimeResult::COMPOSITE; }\n')
+    raw, out = os.path.join(wd, "bp.raw.ll"), os.path.join(wd, "bp.ll")
+    rc, so, se = cxx.run(["clang++", "-std=c++14", "-I" + ir.AU_INC, "-g", "-O1", "-Xclang", "-disable-llvm-passes", "-S", "-emit-llvm", "-w", src, "-o", raw])
+    if rc != 0:
+        raise AnalysisBroken("baillie_psw wrapper does not compile: %s" % se[-300:])
+    rc, so, se = cxx.run(["opt-14", "-S", "-passes=function(sroa,simplifycfg,lowerswitch)", raw, "-o", out])
+    if rc != 0:
+        raise AnalysisBroken("opt failed on the baillie_psw unit: %s" % se[-300:])
+    mod = ir.parse_module(out, only=lambda n: "baillie_psw" in n or n in ("pp_value", "comp_value"))
+
+    def const_ret(fname):
+        fn_ = mod.funcs.get(fname)
+        ctx.require(fn_ is not None, "%s not found" % fname)
+        t = fn_.blocks[fn_.order[-1]][-1]
+        ctx.require(t.op == "ret" and getattr(t.args[0], "kind", None) == "c", "%s does not return a constant" % fname)
+        return t.args[0].v
+    PP, COMP = const_ret("pp_value"), const_ret("comp_value")
+    fns = [v for k, v in mod.funcs.items() if "baillie_psw" in k]
+    ctx.require(len(fns) == 1, "baillie_psw not found in the IR")
+    fn = fns[0]
+    param = fn.params[0][1]
+    defs = {}
+    for l in fn.order:
+        for i in fn.blocks[l]:
+            if i.res is not None:
+                defs[i.res] = i
+
+    def nm(a):
+        return a.v if getattr(a, "kind", None) == "v" else None
+
+    def cv(a):
+        return a.v if getattr(a, "kind", None) == "c" else None
+
+    def strip(a):
+        while nm(a) in defs and defs[nm(a)].op in ("zext", "sext", "trunc", "freeze"):
+            a = defs[nm(a)].args[0]
+        return a
+
+    def is_n(a):
+        return nm(strip(a)) == param
+
+    def mr_call(a):
+        i = defs.get(nm(strip(a)))
+        if i is not None and i.op == "call" and i.callee and "miller_rabin" in i.callee and len(i.args) >= 2 and cv(i.args[0]) is not None and is_n(i.args[1]):
+            return cv(i.args[0])
+        return None
+
+    class Unreadable(Exception):
+        pass
+
+    def fact(cond, truth):
+        """-> ('lt', C) meaning n < C / ('ge', C) / ('parity', r) meaning n % 2 == r / ('mr', a, passed) / None (says nothing about n)"""
+        i = defs.get(nm(cond))
+        if i is None:
+            raise Unreadable("branch on %s" % cond)
+        if i.op == "xor" and any(cv(a) == 1 for a in i.args):
+            return fact([a for a in i.args if cv(a) != 1][0], not truth)
+        if i.op != "icmp":
+            raise Unreadable("branch on `%s`" % i.raw.strip()[:80])
+        a, b, pred = i.args[0], i.args[1], i.pred
+        if cv(a) is not None and cv(b) is None:
+            a, b = b, a
+            pred = {"ult": "ugt", "ugt": "ult", "ule": "uge", "uge": "ule"}.get(pred, pred)
+        c = cv(b)
+        if c is None:
+            raise Unreadable("comparison of two run-time values: `%s`" % i.raw.strip()[:80])
+        if is_n(a):
+            if pred in ("ult", "ule", "ugt", "uge"):
+                lim = {"ult": c, "ule": c + 1, "uge": c, "ugt": c + 1}[pred]
+                lt = pred in ("ult", "ule")
+                return ("lt", lim) if lt == truth else ("ge", lim)
+            if pred in ("eq", "ne"):
+                return ("eq", c) if (pred == "eq") == truth else ("ne", c)
+            raise Unreadable("signed comparison of n")
+        ai = defs.get(nm(strip(a)))
+        if ai is not None and ai.op in ("urem", "and") and is_n(ai.args[0]) and cv(ai.args[1]) == (2 if ai.op == "urem" else 1) and pred in ("eq", "ne") and c in (0, 1):
+            r = c if (pred == "eq") == truth else 1 - c
+            return ("parity", r)
+        base = mr_call(a)
+        if base is not None and pred in ("eq", "ne"):
+            holds = (pred == "eq") == truth  # result == c
+            if c == COMP:
+                return ("mr", base, not holds)
+            if c == PP:
+                return ("mr", base, holds) if holds else None
+            return None
+        raise Unreadable("branch on `%s`" % i.raw.strip()[:80])
+
+    paths = []
+
+    def walk(l, facts, seen):
+        if l in seen:
+            raise Unreadable("a loop in baillie_psw")
+        blk = fn.blocks[l]
+        t = blk[-1]
+        if t.op == "ret":
+            paths.append((facts, t.args[0], seen + [l]))
+            return
+        if t.op == "unreachable":
+            return
+        if t.op != "br":
+            raise Unreadable("terminator `%s`" % t.op)
+        if len(t.targets) == 1:
+            walk(t.targets[0], facts, seen + [l])
+            return
+        for tgt, truth in ((t.targets[0], True), (t.targets[1], False)):
+            f_ = fact(t.args[0], truth)
+            walk(tgt, facts + ([f_] if f_ else []), seen + [l])
+
+    try:
+        walk(fn.entry, [], [])
+    except Unreadable as e:
+        raise AnalysisBroken("baillie_psw: the verdict rule cannot read a path condition (%s)" % e)
+    ctx.require(len(paths) >= 4, "baillie_psw: only %d paths" % len(paths))
+
+    def value_on(path_blocks, a):
+        """resolve phis along the path"""
+        while True:
+            i = defs.get(nm(a))
+            if i is None or i.op != "phi":
+                return a
+            blk = [l for l in fn.order if i in fn.blocks[l]][0]
+            k = path_blocks.index(blk)
+            pred = path_blocks[k - 1]
+            a = [o for (o, pl) in i.incoming if pl == pred][0]
+
+    def admits(facts, n):
+        for f_ in facts:
+            if f_[0] == "lt" and not n < f_[1]:
+                return False
+            if f_[0] == "ge" and not n >= f_[1]:
+                return False
+            if f_[0] == "eq" and n != f_[1]:
+                return False
+            if f_[0] == "ne" and n == f_[1]:
+                return False
+            if f_[0] == "parity" and n % 2 != f_[1]:
+                return False
+            if f_[0] == "mr":
+                if n < 3 or n % 2 == 0:
+                    return False  # (the library's miller_rabin answers BAD_INPUT there: not modelled)
+                if _mr_passes(f_[1], n) != f_[2]:
+                    return False
+        return True
+
+    pool = sorted(set(PSI + PSP2 + CARMICHAEL + LUCAS_PSP + [n for n in range(4, 1 << 12) if not model.is_prime(n)]))
+    fails, established = [], 0
+    def expand(facts, v, blocks_):
+        """a `select` handed back is a branch the optimiser folded: one virtual path per arm"""
+        v = value_on(blocks_, v)
+        i = defs.get(nm(v))
+        if i is not None and i.op == "select":
+            out = []
+            for arm, truth in ((i.args[1], True), (i.args[2], False)):
+                try:
+                    f_ = fact(i.args[0], truth)
+                except Unreadable as e:
+                    raise AnalysisBroken("baillie_psw: the verdict rule cannot read a select condition (%s)" % e)
+                out += expand(facts + ([f_] if f_ else []), arm, blocks_)
+            return out
+        return [(facts, v)]
+
+    vpaths = []
+    for facts, rv, blocks_ in paths:
+        vpaths += expand(facts, rv, blocks_)
+    for facts, v in vpaths:
+        hi = min([f_[1] for f_ in facts if f_[0] == "lt"] + [1 << 64])
+        hi = min([hi] + [f_[1] + 1 for f_ in facts if f_[0] == "eq"])
+        odd = ("parity", 1) in facts
+        bases = {f_[1] for f_ in facts if f_[0] == "mr" and f_[2]}
+        k = 0
+        while k < len(FIRST_PRIMES) and FIRST_PRIMES[k] in bases:
+            k += 1
+        desc = ", ".join(("n < %d" % f_[1]) if f_[0] == "lt" else ("n >= %d" % f_[1]) if f_[0] == "ge" else ("n %% 2 == %d" % f_[1]) if f_[0] == "parity"
+                         else ("n %s %d" % ("==" if f_[0] == "eq" else "!=", f_[1])) if f_[0] in ("eq", "ne") else ("Miller-Rabin base %d %s" % (f_[1], "passed" if f_[2] else "failed")) for f_ in facts) or "no condition"
+        vi = defs.get(nm(v))
+        kind = None
+        if cv(v) is not None:
+            kind = "prime" if cv(v) == PP else "other"
+        elif vi is not None and vi.op == "call" and vi.callee and "strong_lucas" in vi.callee and is_n(vi.args[0]):
+            kind = "lucas"
+        elif vi is not None and vi.op == "call" and mr_call(v) is not None:
+            kind = "prime"  # PROBABLY_PRIME iff that test passes too
+            bases = bases | {mr_call(v)}
+            k = 0
+            while k < len(FIRST_PRIMES) and FIRST_PRIMES[k] in bases:
+                k += 1
+        else:
+            raise AnalysisBroken("baillie_psw returns a value the verdict rule cannot read on the path [%s]" % desc)
+        if kind == "other":
+            established += 1
+            continue
+        if kind == "lucas":
+            if 2 in bases and odd:
+                established += 1
+                continue
+            bad = [n for n in LUCAS_PSP if admits(facts, n)]
+            if bad:
+                fails.append("on the path [%s] the verdict is strong_lucas(n) alone: the strong Lucas pseudoprime %d = %s is admitted by the path and would be called prime" % (desc, bad[0], " * ".join(map(str, sorted(small_factor(bad[0]))))))
+                continue
+            raise AnalysisBroken("baillie_psw: strong_lucas verdict without Miller-Rabin base 2 on the path [%s], and no counterexample in the tables" % desc)
+        # a PROBABLY_PRIME verdict without the Lucas test
+        if hi <= (1 << 16):
+            bad = [n for n in range(0, hi) if admits(facts, n) and not model.is_prime(n)]
+            if bad:
+                fails.append("on the path [%s] the verdict is PROBABLY_PRIME for the composite %d" % (desc, bad[0]))
+            else:
+                established += 1
+            continue
+        if odd and k >= 1 and (k >= 12 or hi <= PSI[k]):
+            established += 1
+            continue
+        bad = [n for n in pool if n < hi and admits(facts, n)]
+        if bad:
+            fails.append("on the path [%s] the verdict is PROBABLY_PRIME without the strong Lucas test: the composite %d = %s is admitted by the path (a strong pseudoprime to every base tested there) and is called prime"
+                         % (desc, bad[0], " * ".join(map(str, sorted(small_factor(bad[0]))))))
+            continue
+        raise AnalysisBroken("baillie_psw: PROBABLY_PRIME on the path [%s] is neither covered by the accepted evidence nor refuted by the tables" % desc)
+    for j, msg in enumerate(fails):
+        ctx.violation("verdict:%d" % j, "baillie_psw: " + msg)
+    return dict(paths=len(vpaths), established=established, failures=len(fails))
+
+
 def body(ctx):
     rnd = random.Random(ctx.seed)
     configs = cxx.configs_for(ctx.tier)
@@ -754,6 +1027,8 @@ def body(ctx):
     dv = divisor_rule(ctx)
     ctx.log("divisor rule: %s" % dv)
     ctx.log("typestate: %s" % ts)
+    vr = verdict_rule(ctx)
+    ctx.log("verdict rule: %s" % vr)
 
     # ---- W: adversarial numbers
     primes = set()
@@ -900,7 +1175,7 @@ def body(ctx):
         evaluations=len(items) * len(configs) + nob, distinct_nontrivial=len(items) + nob,
         rule="divisor rule: every value find_prime_factor / find_pollard_rho_factor can return traces to n itself, to gcd(n, .), to a table entry on an edge taken only when n % p == 0, or to the factor finder applied to such a value; proof part: every path of add_mod / sub_mod / half_mod_odd under the documented preconditions (add_mod under the weaker a <= n), obligations = no unsigned wrap of a contributing operation, result in [0, n), result congruent to the exact value; mul_mod by induction over its recursion (no wrap, no division by zero, recursive precondition with a strictly smaller first operand, result in [0, n), result - a*b a polynomial multiple of n), with products and quotients by non-constants as terms constrained by axioms of non-negative integer arithmetic; pow_mod under n >= 2 with an inferred inductive loop invariant (every mul_mod call meets its precondition, result in [0, n)); exploration part: one witness program per prime / composite N (decltype(mag<N>()) against a factorisation computed with Python integers), products mag<a>*mag<b> == mag<a*b>, Prime<N> refused for every tabulated pseudoprime / Carmichael number; no function value is asserted directly",
         samples=[dict(key=items[0].key, code=items[0].code), dict(key=items[len(primes)].key, code=items[len(primes)].code)],
-        exhaustive=False, typestate=ts, product_rule=pr, divisor_rule=dv, relational_obligations=nob, relational_discharged=ndis, relational_paths=npaths,
+        exhaustive=False, typestate=ts, verdict_rule=vr, product_rule=pr, divisor_rule=dv, relational_obligations=nob, relational_discharged=ndis, relational_paths=npaths,
         primes=len(primes), composites=len(composites), w_items=len(items), w_mismatches=nbad, witnesses_over_budget=len(budget),
         configs=[c.name for c in configs], engine_stats=stats,
         not_decided="is_prime / find_prime_factor for every 64-bit input and the VALUE of pow_mod (base^exp): sampled on adversarial and seeded inputs only"))
